@@ -695,9 +695,12 @@ class Extractor:
                 # R17: closure-converted form of a many0(complete(closure)) expression, rebuilt from /repo's expansion
                 # and the nom source pinned by Cargo.lock (tools/lift.py)
                 import lift
-                if self.expanded_provider is None:
+                if lift.LIFTS.get(src.split(":", 1)[1], {}).get("kind") == "nomfn":
+                    txt, lmeta = lift.build(src.split(":", 1)[1], self.repo, "")      # nom's own source only
+                elif self.expanded_provider is None:
                     raise TemplateError("lifted source requested but no expanded provider")
-                txt, lmeta = lift.build(src.split(":", 1)[1], self.repo, self.expanded_provider())
+                else:
+                    txt, lmeta = lift.build(src.split(":", 1)[1], self.repo, self.expanded_provider())
                 self.meta.setdefault("lifts", []).append(lmeta)
                 self.meta["rule_hits"]["R17"] = self.meta["rule_hits"].get("R17", 0) + 1
                 self._src[src] = Source(txt, src)
